@@ -6,16 +6,117 @@ VERIF = os.path.dirname(os.path.dirname(os.path.abspath(__file__)))
 K = "bounded model checking of the compiled crate (Kani 0.68 / CBMC 6.11, in-crate harnesses over kani::any(), unwinding assertions on)"
 M = "SMT (z3 4.8.12 + cvc5 1.0) over a symbolic execution of the rustc MIR of the listed functions, `fixed` operations summarised"
 
+KH = "one inductive step of the real handler from an arbitrary symbolic port / instance state (Kani harness compiled inside the crate)"
+STUBS = ("Stubs (each listed per harness in the evidence): Message::serialize -> recording stub (typed oracle; octet level decided by c04_encode_*), "
+         "Time::secs/subsec_nanos -> contract discharged by engine M (c16_secs_contract_for_stubs), Interval::as_core_duration -> integer equivalent (validated for 2^0 s), "
+         "Duration::mul_f64 -> monotone contract, core::mem::swap -> loop-free equivalent, Bmca::take_best_port_announce_message -> 'none or any qualified Announce'.")
+
 CLAIMS = {
+ "C03": dict(
+    technique="Kani/CBMC built-in checks (panic, overflow, index, unwrap, debug_assert) over every entry point, one inductive step each",
+    text="Bounded model checking with Kani's default checks as the oracle: every Port handler, timer, BMCA application and the byte gate is executed from an arbitrary "
+         "symbolic state with arbitrary arguments in the dev profile (debug assertions and overflow checks on, so a release-mode wrap is the same failed check). "
+         "Histories follow by induction over the stated representation invariant. Known input classes that do panic are isolated in twin harnesses and listed in known_findings.json.",
+    note="Trusted: Kani/CBMC; " + STUBS + " Outside: frames > 76 octets, list-level foreign-master code, Kalman matrix algebra, log intervals other than 2^0 s.",
+    ref="4/C03"),
+ "C04": dict(
+    technique="Kani/CBMC differential harnesses against an independently written Clause 13 reference codec (symbolic frames)",
+    text="For each of the ten message types: every frame of 34 + body + 12 octets with symbolic content, symbolic buffer length and symbolic messageLength is decoded by the real "
+         "parser and by the reference; acceptance, every defined field, the TLV walk, re-encoding into a dirty buffer (length, defined bits, decode(encode(m)) == m) are compared; "
+         "the encode direction is checked for arbitrary typed messages.",
+    note="Trusted: Kani/CBMC and harness/root/refcodec.rs (the Clause 13 offset table). Suffixes longer than 12 octets repeat the same loop (outside).",
+    ref="4/C04"),
  "C05": dict(
     technique="Kani/CBMC differential harnesses against a reference BMCA (symbolic data sets)",
     text="Bounded model checking (SAT verdict over every value of the symbolic inputs inside the stated bounds) of the real "
          "dataset comparison, state decision and BMCA application code against an independently written reference of "
-         "Figures 33-35; see DESIGN.md 4/C05 for layers and bounds.",
-    note="Trusted: Kani/CBMC, the reference transcription of the standard's figures in harness/root/refbmca.rs; "
+         "Figures 33-35: comparison on fully symbolic data sets, order properties, Ebest selection over all presentation orders, state decision for every "
+         "D0/Ebest/Erbest/prior state, and PtpInstanceState::bmca over two ports with arbitrary prior states.",
+    note="Trusted: Kani/CBMC, the transcription of the standard's figures in harness/root/refbmca.rs; "
          "foreign-master list contents are abstracted (one qualified candidate per port via a stub of take_best_port_announce_message).",
     ref="4/C05"),
+ "C07": dict(
+    technique="Kani/CBMC one-step no-op harnesses (state snapshot before/after) + byte gate on symbolic frames",
+    text="Non-interference reduced to a one-step no-op property: from an arbitrary state, a frame of a foreign domain/sdoId/version or malformed, an Announce from an unacceptable "
+         "master or with the port's own identity, and Sync/Follow_Up/Delay_Resp not from the parent or for another requester return no actions and leave the observable "
+         "state (port state, exchange slots, counters, filter and clock call counts, data sets, foreign-master records) bit-identical; handlers are deterministic, so two runs stay in lock step.",
+    note="Trusted: Kani/CBMC; Inv: a slave's parent passed the acceptable-master gate. " + STUBS,
+    ref="4/C07"),
+ "C08": dict(
+    technique="Kani/CBMC inductive role invariant over handlers and BMCA; emission guards per handler",
+    text="Every emitting handler is run from every port state: Announce/Sync/Follow_Up/Delay_Resp only leave a Master port, end-to-end Delay_Req only a Slave port; "
+         "BMCA over two ports yields at most one S1 (the port that received Ebest, never master-only or faulty), no Master under slave-only, and the filter is demobilized exactly when a port leaves slave/faulty.",
+    note="Trusted: Kani/CBMC. " + STUBS + " Clock commands of the real Kalman filter on non-slave ports are argued from the filter swap, not model-checked.",
+    ref="4/C08"),
+ "C09": dict(
+    technique="Kani/CBMC one-step harnesses with an integer reference formula over arbitrary stored half-exchanges",
+    text=KH + ": handle_sync, handle_follow_up, Delay_Req transmit timestamp and handle_delay_resp with arbitrary stored slots (any ids, any times) and arbitrary arguments; "
+         "a measurement reaches the filter iff the arriving half completes the stored half with the same sequence id from the parent, equals the IEEE formula bit for bit (2^-32 ns) "
+         "written independently over plain integers, and the slot is consumed. Interleavings, duplicates and losses follow by induction.",
+    note="Trusted: Kani/CBMC. Receive times >= 2^47 ns / wire seconds >= 2^18 in these harnesses (the underflow corner is a C03 finding).",
+    ref="4/C09"),
+ "C10": dict(
+    technique="Kani/CBMC one-step harnesses on the typed message handed to the serializer + encode harnesses + engine M contract",
+    text=KH + " for send_sync, Sync transmit timestamp, handle_delay_req, handle_pdelay_req and its transmit timestamp: exactly one message of the right type with the echoed "
+         "identifiers, the port's identity, domain, sdoId and version; timestamp + correction equal the reported time to 2^-16 ns; sequence counters advance by one mod 2^16; at most one event send. "
+         "Octet-level encoding of any typed message is decided separately (c04_encode_*), the seconds/nanoseconds split by engine M.",
+    note="Trusted: Kani/CBMC, z3/cvc5. " + STUBS,
+    ref="4/C10"),
+ "C11": dict(
+    technique="Kani/CBMC one-step harnesses: send_announce vs data sets, handle_announce and BMCA data-set updates",
+    text=KH + ": the Announce handed to the serializer carries exactly parentDS/currentDS/timePropertiesDS (all flag combinations); an Announce from the parent updates the data sets "
+         "to its contents with stepsRemoved + 1; BMCA M1/M2 writes the own attributes with stepsRemoved 0, S1 the selected parent's.",
+    note="Trusted: Kani/CBMC. " + STUBS,
+    ref="4/C11"),
+ "C12": dict(
+    technique="Kani/CBMC safety reduction of liveness: every state change requests the timers that keep the new state alive",
+    text="Liveness reduced to a one-step safety invariant: each timer handler and each BMCA state change returns the Reset*Timer actions the new state needs "
+         "(master: announce + sync; slave: receipt + delay; listening: receipt), with durations equal to the configured intervals / within timeout * interval * [1, 2]; periodic senders re-arm themselves.",
+    note="Trusted: Kani/CBMC. Time itself is abstract (armed / not armed, requested durations); intervals 2^0 s. " + STUBS,
+    ref="4/C12"),
+ "C13": dict(
+    technique="Kani/CBMC bit-precise f64 harnesses on the servo's command stage",
+    text="Command stage only: from an arbitrary non-NaN estimator state the frequency handed to the clock is finite and within the configured bound (one rounding), steps are at least the threshold; "
+         "the estimator's floating-point trajectory over measurement sequences is outside.",
+    note="Trusted: Kani/CBMC's IEEE-754 encoding. Not decided: finiteness over arbitrary measurement sequences (no inductive invariant of the covariance update).",
+    ref="4/C13"),
+ "C14": dict(
+    technique="Kani/CBMC one-step harnesses over arbitrary peer-delay records with an integer reference formula",
+    text=KH + " for Pdelay_Resp, Pdelay_Resp_Follow_Up, the request's transmit timestamp and the request timer: link delay == ((t4-t1)-(t3-t2))/2 on the values stored for the current id, "
+         "a second responder makes the port faulty without using its message, a faulty port recovers after a single-responder exchange.",
+    note="Trusted: Kani/CBMC. " + STUBS,
+    ref="4/C14"),
+ "C15": dict(
+    technique="Kani/CBMC harnesses with a contract-honouring TLV provider at boundary sizes (MAX_DATA_LEN scaled to 128)",
+    text="Send side: a master port with a two-TLV provider at sizes below / equal to / above the remaining room, parent and non-parent senders, path trace on/off: exactly the parent's fitting TLVs, once, in order; "
+         "own identity appended to the received path. Receive side: exactly the propagating TLVs of an accepted Announce are offered for forwarding; looped / over-long path traces.",
+    note="Trusted: Kani/CBMC. Sizes scaled (MAX_DATA_LEN 1024 -> 128, all margins derive from it); statime-linux's TlvForwarder is modelled by the trait's documented contract.",
+    ref="4/C15"),
+ "C16": dict(
+    technique="SMT (z3 + cvc5) over a symbolic execution of the rustc MIR, division-lemma encoding, native replay",
+    text="Engine M: the MIR of Time/Duration/TimeInterval/WireTimestamp conversions and operators is executed symbolically (fixed-crate callees summarised over integers with explicit ranges); "
+         "14 obligations over the full stated ranges are unsat in both solvers; the encoding is validated on 1100+ concrete cases against the compiled functions on every run.",
+    note="Trusted: rustc MIR, the fixed/az summaries (validated differentially), z3, cvc5. Log-interval powers (f64::powi) are outside.",
+    ref="4/C16"),
+ "C17": dict(
+    technique="Kani/CBMC with a lock implementation that asserts on nested acquisition",
+    text="All port and BMCA harnesses run over DepthCell, a PtpInstanceStateMutex that fails the harness on any nested acquisition and counts sections; "
+         "BMCA runs inside exactly one exclusive section. Thread interleavings are reduced to this discipline, not explored.",
+    note="Trusted: Kani/CBMC, std RwLock's contract. Kani has no threads.",
+    ref="4/C17"),
+ "C18": dict(
+    technique="SMT (z3 + cvc5) over the MIR of OverlayClock, f64 abstracted by reals, native replay",
+    text="Engine M: continuity across set_frequency, exactness of step_clock, now() == reading of the underlying time, rate exact at 0 ppm and within fixed-point rounding otherwise, "
+         "for every state in the stated ranges; counterexamples are replayed against the compiled clock.",
+    note="Trusted: rustc MIR, summaries, z3/cvc5; ppm as a real number with round-to-nearest conversion.",
+    ref="4/C18"),
 }
+
+import os as _os
+_claimed_env = _os.environ.get("VERIF_CLAIM")
+ACTIVE = (_claimed_env.split(",") if _claimed_env else
+          [l.strip() for l in open(_os.path.join(VERIF, "tools", "claimed.txt")) if l.strip() and not l.startswith("#")])
+CLAIMS = {k: v for k, v in CLAIMS.items() if k in ACTIVE}
 
 NOT_APPLICABLE = {
  "C01": "multi-instance, multi-interval convergence; needs the foreign-master lists and timers over time - beyond any bounded unrolling CBMC can carry here (list operations alone time out) and there is no inductive per-step invariant that implies global convergence",
